@@ -782,5 +782,180 @@ Section Nd.
                   (BR2_nd _ Hk1) (BR3_nd _ Hk1) l r ca' Hl (fun j => eq_trans (f_equal (fun s => ravel s j) Hl) (ravel_1d l j)) Hr) as E.
     rewrite Hl. exact E.
   Qed.
+
+  Lemma nd_array_case : post V c (out_shape (map to_r nix)) gsrc (gcxs_getitem_nd V g ix).
+  Proof.
+    rewrite out_shape_nix.
+    destruct kc as [|a0 l0] eqn:Ekc, kr as [|a1 l1] eqn:Ekr.
+    - exfalso. apply K_nonempty. pose proof K_length as Hl. rewrite Ekc, Ekr in Hl. destruct K; [reflexivity|simpl in Hl; lia].
+    - apply branch_U; [exact Ekc|rewrite Ekr; discriminate].
+    - apply branch_C; [rewrite Ekc; discriminate|exact Ekr].
+    - apply branch_M; [rewrite Ekc; discriminate|rewrite Ekr; discriminate].
+  Qed.
   End Branches.
 End Nd.
+
+(* ================================================================ all-integer indices *)
+Lemma all_int_facts : forall nix sh, forallb is_nint nix = true -> nwf nix sh ->
+  flat_map key_vals nix = src_of (map to_r nix) [] /\ in_range sh (flat_map key_vals nix) /\ out_shape (map to_r nix) = [].
+Proof.
+  induction nix as [|e r IH]; intros sh Hi Hwf.
+  - simpl in Hwf. subst sh. repeat split.
+  - simpl in Hi. apply andb_true_iff in Hi. destruct Hi as [He Hi]. destruct e as [i| | |]; try discriminate.
+    destruct sh as [|d sh0]; [destruct Hwf|]. destruct Hwf as [Hd Hwf]. destruct (IH sh0 Hi Hwf) as [E1 [E2 E3]].
+    cbn [flat_map key_vals map to_r app]. unfold src_of, out_shape in *. cbn [src_aux out_shape_aux]. rewrite <- E1.
+    repeat split; [lia|lia|exact E2|exact E3].
+Qed.
+
+Section NdMain.
+  Variable V : Type.
+  Variable veqb : V -> V -> bool.
+  Variable add : V -> V -> V.
+
+  Theorem gcxs_getitem_nd_proof (kf : nat -> nat) (c : coo V) (ca : list Z) (ix : index) :
+    canonical V c -> shape_ok (c_shape c) -> caxes_okb (Z.of_nat (length (c_shape c))) ca = true ->
+    StronglySorted Z.lt ca -> (2 <= length (c_shape c))%nat ->
+    no_zero_step ix = true -> basic ix = true -> no_new ix = true ->
+    match np_index (c_shape c) ix with
+    | Raise e => gcxs_getitem V veqb add kf (gcxs_from_coo c ca) ix = Raise e /\ e = IndexError
+    | Ok (sh', gsrc) => post' V c sh' gsrc (gcxs_getitem V veqb add kf (gcxs_from_coo c ca) ix)
+    end.
+  Proof.
+    intros Hc Hok Hca Hsorted Hnd Hz Hb Hnn. set (sh := c_shape c).
+    assert (Hshb : shape_okb sh = true) by (apply forallb_forall; intros d Hd; unfold shape_ok in Hok; rewrite Forall_forall in Hok; apply Z.leb_le, Hok, Hd).
+    pose proof (from_coo_nf V c ca Hok Hca Hnd) as Hg.
+    assert (Hgs : g_shape (gcxs_from_coo c ca) = sh) by (rewrite Hg; reflexivity).
+    assert (Hgi : gcxs_getitem V veqb add kf (gcxs_from_coo c ca) ix = gcxs_getitem_nd V (gcxs_from_coo c ca) ix).
+    { unfold gcxs_getitem. rewrite Hgs. unfold sh. destruct (c_shape c) as [|d0 [|d1 t]]; simpl in Hnd; try lia. reflexivity. }
+    rewrite Hgi. clear Hgi.
+    pose proof (coo_getitem_basic_strong V kf c ix Hc Hshb Hz Hb) as HC. fold sh in HC.
+    assert (Hd : d29_clause sh ix = true).
+    { unfold d29_clause. destruct (expand (Z.of_nat (length sh)) ix) as [ex|] eqn:E; [|reflexivity].
+      apply basic_bool_ok. eapply basic_expand; eauto. }
+    destruct (normalize_link sh ix Hshb Hz Hd) as [[ex [E [Hf [Hao [Hn Hr]]]]]|[Hn Hr]].
+    2: { rewrite np_index_eq, Hr. cbn [bind]. unfold gcxs_getitem_nd. rewrite Hgs. rewrite Hn. auto. }
+    set (nix := norm_all ex sh) in *.
+    assert (Hwf : nwf nix sh) by (apply norm_all_nwf; auto; eapply expand_nzs; eauto).
+    assert (Hna : no_arr nix = true) by (apply basic_norm_no_arr; eapply basic_expand; eauto).
+    assert (Hno : forallb not_none nix = true).
+    { apply norm_all_not_none; auto; [eapply no_new_expand; eauto|eapply expand_nzs; eauto]. }
+    rewrite (np_index_basic sh ix nix Hr Hna) in *.
+    destruct (all_full nix sh) eqn:Haf.
+    - (* the array itself *)
+      assert (Eg : gcxs_getitem_nd V (gcxs_from_coo c ca) ix = Ok (GGArr (gcxs_from_coo c ca))).
+      { unfold gcxs_getitem_nd. rewrite Hgs. rewrite Hn. cbn [bind]. rewrite Haf. reflexivity. }
+      rewrite Eg. destruct (all_full_true nix sh Haf) as [El Ef].
+      destruct (all_full_id nix sh Hshb Ef El) as [H1 H2]. rewrite H1.
+      assert (Hax : axes_ok (c_shape c) ca) by (right; exact Hca).
+      split; [exact Hgs|]. split; [rewrite Hg; reflexivity|]. split.
+      + apply (gcxs_from_coo_wf_proof V veqb add c ca Hc Hok Hax).
+      + intros j Hj. rewrite (H2 j Hj). apply (gcxs_from_coo_den_proof V veqb add c ca j Hc Hok Hax).
+    - destruct (forallb is_nint nix) eqn:Hint.
+      + (* every entry an integer: the element *)
+        destruct (all_int_facts nix sh Hint Hwf) as [E1 [E2 E3]].
+        assert (Eg : gcxs_getitem_nd V (gcxs_from_coo c ca) ix = Ok (GGScalar (den c (src_of (map to_r nix) [])))).
+        { unfold gcxs_getitem_nd. rewrite Hgs. rewrite Hn. cbn [bind]. rewrite Haf, Hint. f_equal. f_equal.
+          rewrite <- E1. rewrite Hg. cbn [g_data g_indices g_indptr g_fill g_caxes].
+          apply (single_element_den V c ca Hc Hok Hca (flat_map key_vals nix) E2). }
+        rewrite Eg. split; [exact E3|reflexivity].
+      + apply (post_post' V veqb add).
+        destruct (getitem kf c ix) as [[v|y]|e].
+        * exfalso. destruct HC as [HC _]. pose proof (out_shape_nix V c ca Hca Hnd nix Hwf Hno Hna) as Ho.
+          rewrite HC in Ho. symmetry in Ho. apply map_eq_nil in Ho.
+          apply (K_nonempty V c nix Hwf Hno Hint). exact Ho.
+        * eapply nd_array_case; eassumption.
+        * destruct HC.
+  Qed.
+End NdMain.
+
+(* ================================================================ the same, for ANY well-formed GCXS array with ndim >= 2
+   (every well-formed GCXS is GCXS.from_coo of its COO form: agent-c05's ConvertU.gcxs_image) *)
+From Verif Require Import ConvertU.
+
+Section NdAny.
+  Variable V : Type.
+  Variable veqb : V -> V -> bool.
+  Variable add : V -> V -> V.
+
+  Theorem gcxs_getitem_any_proof (kf : nat -> nat) (g : gcxs V) ix :
+    gcxs_wfb g = true -> (2 <= length (g_shape g))%nat -> StronglySorted Z.lt (g_caxes g) ->
+    no_zero_step ix = true -> basic ix = true -> no_new ix = true ->
+    match np_index (g_shape g) ix with
+    | Raise e => gcxs_getitem V veqb add kf g ix = Raise e /\ e = IndexError
+    | Ok (sh', gsrc) =>
+      match gcxs_getitem V veqb add kf g ix with
+      | Ok (GGArr g') => g_shape g' = sh' /\ g_fill g' = g_fill g /\ gcxs_wfb g' = true
+                         /\ forall j, in_range sh' j -> gden g' j = gden g (gsrc j)
+      | Ok (GGScalar v) => sh' = [] /\ v = gden g (gsrc [])
+      | Raise _ => False
+      end
+    end.
+  Proof.
+    intros Hwf Hnd Hsorted Hz Hb Hnn.
+    assert (Hs : gcxs_strictb V g = true).
+    { unfold gcxs_strictb. rewrite Hwf. destruct (Nat.leb_spec 2 (length (g_shape g))); [reflexivity|lia]. }
+    destruct (gcxs_image V g Hs) as [c [Hc [Hcs [Hf [Hok [Hax Heq]]]]]].
+    assert (Hca : caxes_okb (Z.of_nat (length (c_shape c))) (g_caxes g) = true).
+    { rewrite Hcs. destruct Hax as [Hl|Hax]; [lia|exact Hax]. }
+    assert (Hden : forall j, gden g j = den c j).
+    { intros j. rewrite <- Heq. apply (gcxs_from_coo_den_proof V veqb add c (g_caxes g) j Hc); rewrite Hcs; assumption. }
+    pose proof (gcxs_getitem_nd_proof V veqb add kf c (g_caxes g) ix Hc ltac:(rewrite Hcs; exact Hok) Hca Hsorted
+                  ltac:(rewrite Hcs; exact Hnd) Hz Hb Hnn) as H.
+    rewrite Heq, Hcs in H.
+    destruct (np_index (g_shape g) ix) as [[sh' gsrc]|e]; [|exact H].
+    unfold post' in H. destruct (gcxs_getitem V veqb add kf g ix) as [[v|g']|e]; [| |exact H].
+    - rewrite Hden. exact H.
+    - destruct H as [H1 [H2 [H3 H4]]]. split; [exact H1|]. split; [rewrite H2; exact Hf|]. split; [exact H3|].
+      intros j Hj. rewrite Hden. apply H4. exact Hj.
+  Qed.
+
+  (* the two halves under the names of the property list *)
+  Theorem gcxs_getitem_den_proof (kf : nat -> nat) (g : gcxs V) ix :
+    gcxs_wfb g = true -> (2 <= length (g_shape g))%nat -> StronglySorted Z.lt (g_caxes g) ->
+    no_zero_step ix = true -> basic ix = true -> no_new ix = true ->
+    match np_index (g_shape g) ix with
+    | Raise e => gcxs_getitem V veqb add kf g ix = Raise e /\ e = IndexError
+    | Ok (sh', gsrc) =>
+      match gcxs_getitem V veqb add kf g ix with
+      | Ok (GGArr g') => g_shape g' = sh' /\ g_fill g' = g_fill g
+                         /\ forall j, in_range sh' j -> gden g' j = gden g (gsrc j)
+      | Ok (GGScalar v) => sh' = [] /\ v = gden g (gsrc [])
+      | Raise _ => False
+      end
+    end.
+  Proof.
+    intros Hwf Hnd Hsorted Hz Hb Hnn.
+    pose proof (gcxs_getitem_any_proof kf g ix Hwf Hnd Hsorted Hz Hb Hnn) as H.
+    destruct (np_index (g_shape g) ix) as [[sh' gsrc]|e]; [|exact H].
+    destruct (gcxs_getitem V veqb add kf g ix) as [[v|g']|e]; [exact H| |exact H]. tauto.
+  Qed.
+
+  Theorem gcxs_getitem_wf_proof (kf : nat -> nat) (g : gcxs V) ix g' :
+    gcxs_wfb g = true -> (2 <= length (g_shape g))%nat -> StronglySorted Z.lt (g_caxes g) ->
+    no_zero_step ix = true -> basic ix = true -> no_new ix = true ->
+    gcxs_getitem V veqb add kf g ix = Ok (GGArr g') -> gcxs_wfb g' = true.
+  Proof.
+    intros Hwf Hnd Hsorted Hz Hb Hnn Hg.
+    pose proof (gcxs_getitem_any_proof kf g ix Hwf Hnd Hsorted Hz Hb Hnn) as H. rewrite Hg in H.
+    destruct (np_index (g_shape g) ix) as [[sh' gsrc]|e]; [tauto|destruct H; discriminate].
+  Qed.
+End NdAny.
+
+(* not vacuous: a 3-d array, compressed axes (0, 2); mixed, compressed-only, uncompressed-only and scalar results *)
+Definition nx_c : coo Z := mkCOO [2; 3; 2] [[0; 0; 1]; [0; 2; 0]; [1; 1; 1]; [1; 2; 0]] [7; 5; 9; 4] 0.
+Example gcxs_getitem_nd_nonvacuous :
+  let g := gcxs_from_coo nx_c [0; 2] in
+  gcxs_wfb g = true /\ StronglySorted Z.lt (g_caxes g)
+  /\ (exists r, rx_get g [ISlice None None (Some (-1)); ISlice (Some 1) None None] = Ok (GGArr r) /\ g_shape r = [2; 2; 2] /\ g_caxes r = [0; 2])
+  /\ (exists r, rx_get g [IEllipsis; IInt 2; IInt 0] = Ok (GGArr r) /\ g_shape r = [2] /\ gden r [0] = 5 /\ gden r [1] = 4)
+  /\ (exists r, rx_get g [IInt 1; ISlice None None None; IInt 1] = Ok (GGArr r) /\ g_shape r = [3] /\ gden r [1] = 9)
+  /\ (exists r, rx_get g [ISlice None None None; IInt 2] = Ok (GGArr r) /\ g_shape r = [2; 2] /\ g_caxes r = [0] /\ gden r [1; 0] = 4)
+  /\ rx_get g [IInt 1; IInt 1; IInt 1] = Ok (GGScalar 9).
+Proof.
+  cbv zeta. split; [reflexivity|]. split; [vm_compute; repeat constructor|].
+  split; [eexists; split; [vm_compute; reflexivity|split; reflexivity]|].
+  split; [eexists; split; [vm_compute; reflexivity|repeat split; reflexivity]|].
+  split; [eexists; split; [vm_compute; reflexivity|repeat split; reflexivity]|].
+  split; [eexists; split; [vm_compute; reflexivity|repeat split; reflexivity]|].
+  reflexivity.
+Qed.
